@@ -131,7 +131,7 @@ func run(c *fw.Ctx) {
 		}
 		return false
 	}
-	allKinds := append(append([]string{}, parseKinds...), "signdata")
+	allKinds := append(append([]string{}, parseKinds...), "signdata", "txjson")
 
 	// ---- S: result stability over call sequences
 	types.VerifSetLogger(nopLogger{})
@@ -251,6 +251,7 @@ func run(c *fw.Ctx) {
 		}
 	}
 
+	r.txJsonFieldCases(mine)
 	r.lap("T7-signdata")
 	if !r.mutations(f, mine, stop) {
 		return
@@ -332,6 +333,8 @@ func (r *runner) parsedRT(kind string, b []byte, po parsed) {
 		runRT(r, txCodec, po.tx, true, k, nil)
 	case "header":
 		runRT(r, hdrCodec, po.hdr, true, k, nil)
+	case "txjson":
+		runRT(r, txJsonCodec, po.tx, true, k, nil)
 	case "group":
 		runRT(r, groupCodec, po.group, true, k, nil)
 	case "block":
